@@ -2,4 +2,4 @@ Require Extraction.
 Require Import ExtrOcamlBasic.
 From Herc Require Import Base.Conv LineStats.Model.
 Extraction "c12_model.ml" conv_anchor line_stats lsc_consume step_stats devs_run devs_result commits_run replay_ok
-  no_del_del canonical inserted deleted langs_sum_ok conserve_ok count_commit single_branch.
+  once_ok no_del_del canonical inserted deleted langs_sum_ok conserve_ok count_commit single_branch.
